@@ -312,8 +312,333 @@ theorem metaLine_run {kind comm : List Nat} (tid : Nat)
   exact run_trans (run_trans (run_trans (run_trans (run_trans (run_trans (run_trans (run_trans
     hA (dec_run_val tid _)) hB) (run_body hk)) hC) (run_body (dec_body tid))) hD) (run_body hc)) hE
 
-theorem evText_run (f : Bool) (e : Ev) (hn : bodyRun .normal (escapeName f e.name).out = some .normal) :
-    run ⟨.val, [.arr, .obj]⟩ (evText f e) = some ⟨.after, [.arr, .obj]⟩ := by
+/-! ## the argument buffer -/
+
+/-- invariant of `spec_buf` under the repaired `print_args` / `print_char` -/
+structure SBInv (b : NB) : Prop where
+  term : b.term = false
+  oob : b.oob = false
+  pos : b.pos = b.out.length
+  len : b.len + b.pos = 2048
+  room : 1 ≤ b.len
+  body : bodyRun .normal b.out = some .normal
+
+theorem sbInit_inv : SBInv sbInit := ⟨rfl, rfl, rfl, rfl, by decide, rfl⟩
+
+/-- a piece that fits is appended -/
+theorem pA_fits {b : NB} {s : List Nat} (hi : SBInv b) (hs : bodyRun .normal s = some .normal)
+    (hl : s.length < b.len) : SBInv (pA true b s) ∧ (pA true b s).out = b.out ++ s := by
+  obtain ⟨ht, ho, hp, hlen, hr, hb⟩ := hi
+  have hne : b.len ≠ 0 := by omega
+  have hg : ¬ b.len ≤ s.length := by omega
+  have hk : min s.length (b.len - 1) = s.length := by omega
+  have hw : wrapSub b.len s.length = b.len - s.length := wrapSub_small (by omega) (by omega)
+  simp only [pA, Bool.true_and, hg, decide_false, Bool.false_eq_true, ↓reduceIte]
+  refine ⟨⟨?_, ?_, ?_, ?_, ?_, ?_⟩, ?_⟩
+  · simp [printArgs, hne, ht, hk]
+  · simp only [printArgs, hne, ↓reduceIte, hk, ho, cap, Bool.false_or]; exact decide_eq_false (by omega)
+  · simp [printArgs, hne, ht, hk, hp]
+  · simp only [printArgs, hne, ↓reduceIte, hw]; omega
+  · simp only [printArgs, hne, ↓reduceIte, hw]; omega
+  · simp only [printArgs, hne, ↓reduceIte, ht, hk, Bool.false_eq_true, List.take_length]
+    exact bodyRun_trans hb hs
+  · simp [printArgs, hne, ht, hk]
+
+/-- a piece that does not fit is dropped -/
+theorem pA_drop {b : NB} {s : List Nat} (hl : b.len ≤ s.length) : pA true b s = b := by
+  simp [pA, hl]
+
+theorem pA_inv {b : NB} {s : List Nat} (hi : SBInv b) (hs : bodyRun .normal s = some .normal) :
+    SBInv (pA true b s) := by
+  by_cases hl : s.length < b.len
+  · exact (pA_fits hi hs hl).1
+  · rw [pA_drop (by omega)]; exact hi
+
+theorem viaChar_plain {c : Nat} (h : viaChar c = true) : plain c := by
+  simp only [viaChar, isPrint, Bool.and_eq_true, decide_eq_true_eq, bne_iff_ne, ne_eq] at h
+  exact ⟨h.1.1.1, h.1.1.2, h.2, h.1.2⟩
+
+theorem pC_fits {b : NB} {c : Nat} (hi : SBInv b) (hc : plain c) (hl : 1 < b.len) :
+    SBInv (pC true b c) ∧ (pC true b c).out = b.out ++ [c] := by
+  obtain ⟨ht, ho, hp, hlen, hr, hb⟩ := hi
+  have hg : ¬ b.len < 2 := by omega
+  have hw : wrapSub b.len 1 = b.len - 1 := wrapSub_small (by omega) (by omega)
+  simp only [pC, Bool.true_and, hg, decide_false, Bool.false_eq_true, ↓reduceIte]
+  refine ⟨⟨?_, ?_, ?_, ?_, ?_, ?_⟩, ?_⟩
+  · simp [printChar, ht]
+  · simp only [printChar, ho, cap, Bool.false_or]; exact decide_eq_false (by omega)
+  · simp [printChar, ht, hp]
+  · simp only [printChar, hw]; omega
+  · simp only [printChar, hw]; omega
+  · simp only [printChar, ht, Bool.false_eq_true, ↓reduceIte]
+    exact bodyRun_trans hb (bodyRun_plain (by simpa using hc))
+  · simp [printChar, ht]
+
+theorem pC_inv {b : NB} {c : Nat} (hi : SBInv b) (hc : plain c) : SBInv (pC true b c) := by
+  by_cases hl : 1 < b.len
+  · exact (pC_fits hi hc hl).1
+  · have : b.len < 2 := by omega
+    simp only [pC, Bool.true_and, this, decide_true, ↓reduceIte]; exact hi
+
+theorem pE_inv {b : NB} (c : Nat) (hi : SBInv b) : SBInv (pE true b c) := by
+  unfold pE
+  split
+  · rename_i hv; exact pC_inv hi (viaChar_plain hv)
+  · exact pA_inv hi (escapeChar_body c)
+
+theorem pE_fits {b : NB} (c : Nat) (hi : SBInv b) (hl : (escapeChar c).length < b.len) :
+    SBInv (pE true b c) ∧ (pE true b c).out = b.out ++ escapeChar c := by
+  unfold pE
+  split
+  · rename_i hv
+    have he := escapeChar_viaChar hv
+    rw [he] at hl ⊢
+    exact pC_fits hi (viaChar_plain hv) (by simpa using hl)
+  · exact pA_fits hi (escapeChar_body c) hl
+
+theorem foldl_pE_inv : ∀ (l : List Nat) (b : NB), SBInv b → SBInv (l.foldl (pE true) b)
+  | [], _, hi => hi
+  | c :: cs, b, hi => foldl_pE_inv cs (pE true b c) (pE_inv c hi)
+
+theorem foldl_pE_fits : ∀ (l : List Nat) (b : NB), SBInv b → (escapeStr l).length < b.len →
+    SBInv (l.foldl (pE true) b) ∧ (l.foldl (pE true) b).out = b.out ++ escapeStr l
+  | [], b, hi, _ => by simp [escapeStr, hi]
+  | c :: cs, b, hi, hl => by
+    rw [escapeStr_cons, List.length_append] at hl
+    have h1 := pE_fits c hi (by omega)
+    have hlen1 := h1.1.len
+    have hlen0 := hi.len
+    have hpos : (pE true b c).pos = b.pos + (escapeChar c).length := by
+      rw [h1.1.pos, h1.2, hi.pos, List.length_append]
+    have h2 := foldl_pE_fits cs (pE true b c) h1.1 (by omega)
+    simp only [List.foldl_cons]
+    refine ⟨h2.1, ?_⟩
+    rw [h2.2, h1.2, escapeStr_cons, List.append_assoc]
+
+/-- the text of one value -/
+def valText : ArgVal → List Nat
+  | .str bs std =>
+    (if bs = [255, 255, 255, 255] then b!"NULL" else [92, 34] ++ escapeStr (cstr bs) ++ [92, 34]) ++
+    (if std then [115] else [])
+  | .chr c => [39] ++ escapeChar c ++ [39]
+  | .sym name => 38 :: escapeStr name
+  | .raw t => t
+
+/-- what the formats outside the model print is assumed to be a string body
+    (printf of numbers: digits, letters, "0x", ".", "-", "<ENUM?> …", "{...}") -/
+def ArgVal.ok : ArgVal → Prop
+  | .raw t => bodyRun .normal t = some .normal
+  | _ => True
+
+theorem q_body : bodyRun .normal [92, 34] = some .normal := by decide
+
+theorem valText_body (v : ArgVal) (hv : v.ok) : bodyRun .normal (valText v) = some .normal := by
+  cases v with
+  | str bs std =>
+    simp only [valText]
+    have h1 : bodyRun .normal (if bs = [255, 255, 255, 255] then b!"NULL"
+        else [92, 34] ++ escapeStr (cstr bs) ++ [92, 34]) = some .normal := by
+      split
+      · decide
+      · exact bodyRun_trans (bodyRun_trans q_body (escapeStr_body _)) q_body
+    refine bodyRun_trans h1 ?_
+    split <;> decide
+  | chr c =>
+    simp only [valText]
+    exact bodyRun_trans (bodyRun_trans (by decide) (escapeChar_body c)) (by decide)
+  | sym name =>
+    simp only [valText]
+    have : (38 :: escapeStr name) = [38] ++ escapeStr name := rfl
+    rw [this]
+    exact bodyRun_trans (by decide) (escapeStr_body _)
+  | raw t => exact hv
+
+theorem argPiece_inv {b : NB} (v : ArgVal) (hv : v.ok) (hi : SBInv b) : SBInv (argPiece true true b v) := by
+  cases v with
+  | str bs std =>
+    simp only [argPiece]
+    have h1 : SBInv (if bs = [255, 255, 255, 255] then pA true b b!"NULL"
+        else pA true ((cstr bs).foldl (pE true) (pA true b [92, 34])) [92, 34]) := by
+      split
+      · exact pA_inv hi (by decide)
+      · exact pA_inv (foldl_pE_inv _ _ (pA_inv hi q_body)) q_body
+    split
+    · exact pA_inv h1 (by decide)
+    · exact h1
+  | chr c =>
+    simp only [argPiece]
+    exact pA_inv (pE_inv c (pA_inv hi (by decide))) (by decide)
+  | sym name =>
+    simp only [argPiece, ↓reduceIte]
+    exact foldl_pE_inv _ _ (pA_inv hi (by decide))
+  | raw t => exact pA_inv hi hv
+
+/-- a value whose text fits is printed completely -/
+theorem argPiece_fits {b : NB} (v : ArgVal) (hv : v.ok) (hi : SBInv b) (hl : (valText v).length < b.len) :
+    SBInv (argPiece true true b v) ∧ (argPiece true true b v).out = b.out ++ valText v := by
+  have hlen0 := hi.len
+  cases v with
+  | str bs std =>
+    simp only [argPiece, valText] at hl ⊢
+    have h1 : SBInv (if bs = [255, 255, 255, 255] then pA true b b!"NULL"
+          else pA true ((cstr bs).foldl (pE true) (pA true b [92, 34])) [92, 34]) ∧
+        (if bs = [255, 255, 255, 255] then pA true b b!"NULL"
+          else pA true ((cstr bs).foldl (pE true) (pA true b [92, 34])) [92, 34]).out =
+        b.out ++ (if bs = [255, 255, 255, 255] then b!"NULL" else [92, 34] ++ escapeStr (cstr bs) ++ [92, 34]) := by
+      split
+      · rename_i hn
+        simp only [hn, ↓reduceIte, List.length_append] at hl
+        exact pA_fits hi (by decide) (by simp at hl ⊢; omega)
+      · rename_i hn
+        simp only [hn, ↓reduceIte, List.length_append, List.length_cons, List.length_nil] at hl
+        have a := pA_fits hi q_body (by simp; omega)
+        have al := a.1.len
+        have ap : (pA true b [92, 34]).pos = b.pos + 2 := by rw [a.1.pos, a.2, hi.pos]; simp
+        have c := foldl_pE_fits (cstr bs) _ a.1 (by omega)
+        have cl := c.1.len
+        have cp : ((cstr bs).foldl (pE true) (pA true b [92, 34])).pos = b.pos + 2 + (escapeStr (cstr bs)).length := by
+          rw [c.1.pos, c.2, a.2, hi.pos]; simp; omega
+        have d := pA_fits c.1 q_body (by simp; omega)
+        refine ⟨d.1, ?_⟩
+        rw [d.2, c.2, a.2]; simp
+    split
+    · rename_i hs
+      simp only [hs, ↓reduceIte, List.length_append, List.length_cons, List.length_nil] at hl
+      have l1 := h1.1.len
+      have p1 : (if bs = [255, 255, 255, 255] then pA true b b!"NULL"
+          else pA true ((cstr bs).foldl (pE true) (pA true b [92, 34])) [92, 34]).pos =
+          b.pos + (if bs = [255, 255, 255, 255] then b!"NULL" else [92, 34] ++ escapeStr (cstr bs) ++ [92, 34]).length := by
+        rw [h1.1.pos, h1.2, hi.pos, List.length_append]
+      have d := pA_fits h1.1 (s := [115]) (by decide) (by simp; omega)
+      refine ⟨d.1, ?_⟩
+      rw [d.2, h1.2]; simp
+    · rename_i hs
+      simp only [hs, Bool.false_eq_true, ↓reduceIte, List.append_nil] at hl ⊢
+      exact h1
+  | chr c =>
+    simp only [argPiece, valText, List.length_append, List.length_cons, List.length_nil] at hl ⊢
+    have a := pA_fits hi (s := [39]) (by decide) (by simp; omega)
+    have al := a.1.len
+    have ap : (pA true b [39]).pos = b.pos + 1 := by rw [a.1.pos, a.2, hi.pos]; simp
+    have c1 := pE_fits c a.1 (by omega)
+    have cl := c1.1.len
+    have cp : (pE true (pA true b [39]) c).pos = b.pos + 1 + (escapeChar c).length := by
+      rw [c1.1.pos, c1.2, a.2, hi.pos]; simp; omega
+    have d := pA_fits c1.1 (s := [39]) (by decide) (by simp; omega)
+    refine ⟨d.1, ?_⟩
+    rw [d.2, c1.2, a.2]; simp
+  | sym name =>
+    simp only [argPiece, valText, ↓reduceIte, List.length_cons] at hl ⊢
+    have a := pA_fits hi (s := [38]) (by decide) (by simp; omega)
+    have al := a.1.len
+    have ap : (pA true b [38]).pos = b.pos + 1 := by rw [a.1.pos, a.2, hi.pos]; simp
+    have c := foldl_pE_fits name _ a.1 (by omega)
+    refine ⟨c.1, ?_⟩
+    rw [c.2, a.2]; simp
+  | raw t => exact pA_fits hi hv hl
+
+theorem argLoop_inv (retval : Bool) : ∀ (vs : List ArgVal) (first : Bool) (b : NB), (∀ v ∈ vs, v.ok) → SBInv b →
+    SBInv (argLoop true true retval first b vs)
+  | [], _, b, _, hi => by simpa [argLoop] using hi
+  | v :: vs, first, b, hv, hi => by
+    simp only [argLoop]
+    have h1 : SBInv (if first = true then b else pA true b b!", ") := by
+      split
+      · exact hi
+      · exact pA_inv hi (by decide)
+    have h2 := argPiece_inv v (hv v (by simp)) h1
+    split
+    · exact h2
+    · exact argLoop_inv retval vs false _ (fun x hx => hv x (by simp [hx])) h2
+
+/-- the values joined by ", " -/
+def argsJoin : List ArgVal → List Nat
+  | [] => []
+  | [v] => valText v
+  | v :: w :: vs => valText v ++ b!", " ++ argsJoin (w :: vs)
+
+/-- the complete text: "(a, b, c)" for arguments, the first value for a return value -/
+def argFull (retval : Bool) (vs : List ArgVal) : List Nat :=
+  if retval then (match vs with | [] => [] | v :: _ => valText v) else [40] ++ argsJoin vs ++ [41]
+
+theorem argsJoin_cons (v : ArgVal) (vs : List ArgVal) :
+    argsJoin (v :: vs) = valText v ++ (if vs = [] then [] else b!", " ++ argsJoin vs) := by
+  cases vs with
+  | nil => simp [argsJoin]
+  | cons w r => simp [argsJoin]
+
+/-- as long as three bytes stay free after every value the loop prints all of them -/
+theorem argLoop_fits : ∀ (vs : List ArgVal) (first : Bool) (b : NB), (∀ v ∈ vs, v.ok) → SBInv b →
+    b.pos + (if first = true ∨ vs = [] then 0 else 2) + (argsJoin vs).length + 3 ≤ 2048 →
+    SBInv (argLoop true true false first b vs) ∧
+    (argLoop true true false first b vs).out =
+      b.out ++ (if first = true ∨ vs = [] then [] else b!", ") ++ argsJoin vs
+  | [], _, b, _, hi, _ => by simp [argLoop, argsJoin, hi]
+  | v :: vs, first, b, hv, hi, hl => by
+    have hlen0 := hi.len
+    rw [argsJoin_cons, List.length_append] at hl
+    simp only [reduceCtorEq, or_false] at hl ⊢
+    simp only [argLoop]
+    have h1 : SBInv (if first = true then b else pA true b b!", ") ∧
+        (if first = true then b else pA true b b!", ").out = b.out ++ (if first = true then [] else b!", ") := by
+      split
+      · simp [hi]
+      · rename_i hf
+        simp only [hf, ↓reduceIte] at hl
+        exact pA_fits hi (by decide) (by simp; omega)
+    have l1 := h1.1.len
+    have p1 : (if first = true then b else pA true b b!", ").pos = b.pos + (if first = true then 0 else 2) := by
+      rw [h1.1.pos, h1.2, hi.pos, List.length_append]
+      split <;> simp
+    have h2 := argPiece_fits v (hv v (by simp)) h1.1 (by omega)
+    have l2 := h2.1.len
+    have p2 : (argPiece true true (if first = true then b else pA true b b!", ") v).pos =
+        b.pos + (if first = true then 0 else 2) + (valText v).length := by
+      rw [h2.1.pos, h2.2, List.length_append, ← h1.1.pos, p1]
+    by_cases hvs : vs = []
+    · subst hvs
+      simp only [↓reduceIte, List.length_nil, Nat.add_zero] at hl
+      have : (if (argPiece true true (if first = true then b else pA true b b!", ") v).len ≤ 2 ∨ false = true
+          then argPiece true true (if first = true then b else pA true b b!", ") v
+          else argLoop true true false false (argPiece true true (if first = true then b else pA true b b!", ") v) []) =
+          argPiece true true (if first = true then b else pA true b b!", ") v := by
+        split <;> simp [argLoop]
+      rw [this]
+      refine ⟨h2.1, ?_⟩
+      rw [h2.2, h1.2]; simp
+    · simp only [hvs, ↓reduceIte, List.length_append] at hl
+      have hg : ¬ ((argPiece true true (if first = true then b else pA true b b!", ") v).len ≤ 2 ∨ false = true) := by
+        simp only [Bool.false_eq_true, or_false]
+        have : (b!", ").length = 2 := rfl
+        omega
+      simp only [hg, ↓reduceIte]
+      have h3 := argLoop_fits vs false _ (fun x hx => hv x (by simp [hx])) h2.1 (by
+        simp only [Bool.false_eq_true, hvs, or_self, ↓reduceIte]
+        have : (b!", ").length = 2 := rfl
+        omega)
+      refine ⟨h3.1, ?_⟩
+      rw [h3.2, h2.2, h1.2]
+      simp [hvs, List.append_assoc]
+
+theorem argsText_run (e : Ev)
+    (ha : ∀ vs, e.args = some vs → bodyRun .normal (argString true true (!e.entry) vs).out = some .normal) :
+    run ⟨.str false .normal, [.obj, .arr, .obj]⟩ ([34] ++ argsText Fix.all e) = some ⟨.after, [.arr, .obj]⟩ := by
+  unfold argsText
+  cases h : e.args with
+  | none => decide
+  | some vs =>
+    have hb := ha vs h
+    simp only [Fix.all]
+    have h1 : run ⟨.str false .normal, [.obj, .arr, .obj]⟩
+        ([34] ++ (if e.entry = true then b!",\"args\":{\"arguments\":\"" else b!",\"args\":{\"retval\":\"")) =
+        some ⟨.str false .normal, [.obj, .obj, .arr, .obj]⟩ := by split <;> decide
+    have h2 : run ⟨.str false .normal, [.obj, .obj, .arr, .obj]⟩ b!"\"}}" = some ⟨.after, [.arr, .obj]⟩ := by decide
+    have := run_trans (run_trans h1 (run_body hb)) h2
+    simpa [List.append_assoc] using this
+
+theorem evText_run (e : Ev) (hn : bodyRun .normal (escapeName true e.name).out = some .normal)
+    (ha : ∀ vs, e.args = some vs → bodyRun .normal (argString true true (!e.entry) vs).out = some .normal) :
+    run ⟨.val, [.arr, .obj]⟩ (evText Fix.all e) = some ⟨.after, [.arr, .obj]⟩ := by
   unfold evText
   have h1 : run ⟨.val, [.arr, .obj]⟩ b!"{\"ts\":" = some ⟨.val, [.obj, .arr, .obj]⟩ := by decide
   have h2 : run ⟨.frac, [.obj, .arr, .obj]⟩ b!",\"ph\":\"" = some ⟨.str false .normal, [.obj, .arr, .obj]⟩ := by decide
@@ -330,9 +655,10 @@ theorem evText_run (f : Bool) (e : Ev) (hn : bodyRun .normal (escapeName f e.nam
   obtain ⟨n, h5⟩ := h5
   have h6 : run ⟨if n = 0 then .zero else .int, [.obj, .arr, .obj]⟩ b!",\"name\":\"" =
       some ⟨.str false .normal, [.obj, .arr, .obj]⟩ := numEnd_run (by decide) (by decide)
-  have h7 : run ⟨.str false .normal, [.obj, .arr, .obj]⟩ b!"\"}" = some ⟨.after, [.arr, .obj]⟩ := by decide
-  exact run_trans (run_trans (run_trans (run_trans (run_trans (run_trans (run_trans (run_trans
+  have h7 := argsText_run e ha
+  have := run_trans (run_trans (run_trans (run_trans (run_trans (run_trans (run_trans (run_trans
     h1 (tsText_run_val e.time _)) h2) h3) h4) h5) h6) (run_body hn)) h7
+  simpa [Fix.all, List.append_assoc] using this
 
 /-- the state between two elements of the "traceEvents" array -/
 def openSt (lc : Bool) : St := if lc then ⟨.after, [.arr, .obj]⟩ else ⟨.valOrEnd, [.arr, .obj]⟩
@@ -348,7 +674,7 @@ theorem elem_run {E : List Nat} (lc : Bool) (hE : run ⟨.val, [.arr, .obj]⟩ (
     have h2 : run ⟨.valOrEnd, [.arr, .obj]⟩ (123 :: E) = run ⟨.val, [.arr, .obj]⟩ (123 :: E) := rfl
     simpa [openSt, h2] using hE
 
-theorem evText_head (f : Bool) (e : Ev) : ∃ E, evText f e = 123 :: E := by
+theorem evText_head (f : Fix) (e : Ev) : ∃ E, evText f e = 123 :: E := by
   unfold evText; exact ⟨_, by simp [List.append_assoc]; rfl⟩
 
 theorem metaLine_head (kind : List Nat) (tid : Nat) (comm : List Nat) : ∃ E, metaLine kind tid comm = 123 :: E := by
@@ -383,17 +709,43 @@ theorem header_run (comm : List Nat) (tasks : List Task) :
   unfold headerFix
   exact run_trans h0 (hl tasks false)
 
-theorem evs_run (evs : List Ev) (lc : Bool) :
-    run (openSt lc) (evsText true lc evs) = some (openSt (lc || !evs.isEmpty)) := by
+/-- every `raw` piece of every event is a string body -/
+def Ev.ok (e : Ev) : Prop := ∀ vs, e.args = some vs → ∀ v ∈ vs, v.ok
+
+theorem argString_inv (retval : Bool) (vs : List ArgVal) (hv : ∀ v ∈ vs, v.ok) :
+    (argString true true retval vs).oob = false ∧ (argString true true retval vs).term = false ∧
+    (argString true true retval vs).out.length ≤ 2047 ∧
+    bodyRun .normal (argString true true retval vs).out = some .normal := by
+  cases retval with
+  | true =>
+    have hi := argLoop_inv true vs true sbInit hv sbInit_inv
+    have hl := hi.len
+    have hr := hi.room
+    have hp := hi.pos
+    simp only [argString, ↓reduceIte]
+    refine ⟨?_, hi.term, by omega, hi.body⟩
+    simp only [hi.oob, cap, Bool.false_or]; exact decide_eq_false (by omega)
+  | false =>
+    have hi := pA_inv (s := [41]) (argLoop_inv false vs true _ hv (pA_inv (s := [40]) sbInit_inv (by decide))) (by decide)
+    have hl := hi.len
+    have hr := hi.room
+    have hp := hi.pos
+    simp only [argString, Bool.false_eq_true, ↓reduceIte]
+    exact ⟨hi.oob, hi.term, by omega, hi.body⟩
+
+theorem evs_run (evs : List Ev) (lc : Bool) (hok : ∀ e ∈ evs, e.ok) :
+    run (openSt lc) (evsText Fix.all lc evs) = some (openSt (lc || !evs.isEmpty)) := by
   induction evs generalizing lc with
   | nil => simp [evsText, run]
   | cons e es ih =>
     simp only [evsText]
-    obtain ⟨E, hE⟩ := evText_head true e
+    obtain ⟨E, hE⟩ := evText_head Fix.all e
     have hn : bodyRun .normal (escapeName true e.name).out = some .normal := nameOut_body e.name
-    have h1 : run (openSt lc) ((if lc then b!",\n" else []) ++ evText true e) = some (openSt true) := by
-      rw [hE]; exact elem_run lc (by rw [← hE]; exact evText_run true e hn)
-    have := run_trans h1 (ih true)
+    have ha : ∀ vs, e.args = some vs → bodyRun .normal (argString true true (!e.entry) vs).out = some .normal :=
+      fun vs h => (argString_inv _ vs (hok e (by simp) vs h)).2.2.2
+    have h1 : run (openSt lc) ((if lc then b!",\n" else []) ++ evText Fix.all e) = some (openSt true) := by
+      rw [hE]; exact elem_run lc (by rw [← hE]; exact evText_run e hn ha)
+    have := run_trans h1 (ih true (fun x hx => hok x (by simp [hx])))
     simpa using this
 
 theorem footer_run (lc : Bool) (version date c : List Nat)
